@@ -1,31 +1,37 @@
 (* C19 — joins implement the documented relational semantics.
-   Property theorems only: each is closed by [exact] of a lemma proved in Proofs/JoinProofs.v.
+   Property theorems only: each is closed by [exact] of a lemma proved in Proofs/Join*Proofs.v.
    [join_impl] (Model/JoinImpl.v) mirrors evaluators/join.rs; [join_spec] (Model/JoinSpec.v) is the
    relational specification written from the documentation of Graph::join /
    Graph::join_with_column_masks; [masked] selects the variant with per-column masks. *)
-From CC Require Import Base.Prelude Model.JoinTable Model.JoinImpl Model.JoinSpec Proofs.JoinProofs.
+From CC Require Import Base.Prelude Model.JoinTable Model.JoinImpl Model.JoinSpec Proofs.JoinProofs
+  Proofs.JoinUnionProofs Proofs.JoinFullProofs.
 
 (* The full statement: for well-formed tables whose rows that take part in matching have unique
    keys, the mirrored algorithm returns exactly the specified table, for the four join types and
-   both variants.  ([full_ok] excludes header sets on which /repo's full join fails, see the
-   report; it is only needed for JFull.) *)
+   both variants.  ([full_ok] excludes header sets on which /repo's full join fails, see
+   C19_full_join_header_collision_refuted below; it is only needed for JFull.) *)
 Definition C19_full : Prop :=
   forall masked jt a b keys,
     wf_join masked a b keys -> full_ok a keys ->
     unique_live_keys masked a (map fst keys) -> unique_live_keys masked b (map snd keys) ->
     join_impl jt masked a b keys = Ok (join_spec masked jt a b keys).
 (* "In this form, full join is computed as union_join(a, left_join(b, a))" — stated on the
-   specification; not proved here (the mirrored algorithm computes the full join this way by
-   definition, and join_spec JFull is tied to it on every run). *)
+   specification (the mirrored algorithm computes the full join this way by definition). *)
 Definition C19_full_is_union_of_left : Prop :=
   forall masked a b keys,
     wf_join masked a b keys -> full_ok a keys ->
     join_spec masked JFull a b keys
     = join_spec masked JUnion a (join_spec masked JLeft b a (swap_keys keys)) keys.
 
-(* Proved part: inner and left joins (plain and masked variants, any number of key columns,
-   any table sizes).  Uniqueness is only needed for the table that is searched. *)
-Theorem C19_join_impl_spec_partial : forall masked jt a b keys,
+(* The full statement is proved: all four join types, plain and masked variants, any number of key
+   columns, any table sizes. *)
+Theorem C19_join_impl_spec : C19_full.
+Proof. exact join_impl_spec_all. Qed.
+
+(* The hypotheses each join type really needs.  Inner and left join search the second table: its
+   live keys must be unique (with a duplicate the hash map keeps the last row, the specification
+   the first). *)
+Theorem C19_inner_left_impl_spec : forall masked jt a b keys,
   jt = JInner \/ jt = JLeft ->
   wf_join masked a b keys -> unique_live_keys masked b (map snd keys) ->
   join_impl jt masked a b keys = Ok (join_spec masked jt a b keys).
@@ -34,6 +40,21 @@ Proof.
   - exact (inner_impl_spec masked a b keys).
   - exact (left_impl_spec masked a b keys).
 Qed.
+(* The union join needs no uniqueness: it only asks whether a key of the first table occurs in the
+   second. *)
+Theorem C19_union_impl_spec : forall masked a b keys,
+  wf_join masked a b keys ->
+  join_impl JUnion masked a b keys = Ok (join_spec masked JUnion a b keys).
+Proof. exact union_impl_spec. Qed.
+(* The full join = union_join(a, left_join(b, a)) searches the first table only. *)
+Theorem C19_full_join_impl_spec : forall masked a b keys,
+  wf_join masked a b keys -> full_ok a keys -> unique_live_keys masked a (map fst keys) ->
+  join_impl JFull masked a b keys = Ok (join_spec masked JFull a b keys).
+Proof. exact full_impl_spec. Qed.
+
+(* The documented identity, on the specification; no uniqueness needed *)
+Theorem C19_full_join_is_union_of_left : C19_full_is_union_of_left.
+Proof. exact full_is_union_of_left_all. Qed.
 
 (* Row counts per join type (type_inference.rs:340-343), for every column of the specified table *)
 Theorem C19_row_counts : forall masked jt a b keys,
@@ -83,7 +104,44 @@ Example C19_example_values :
          [JInner; JLeft; JUnion; JFull] = [true; true; true; true].
 Proof. split; vm_compute; reflexivity. Qed.
 
-Print Assumptions C19_join_impl_spec_partial.
+(* Non-vacuity of the hypotheses of C19_full: they hold for these tables (so the theorem applies to
+   them, for the four join types) *)
+Ltac ex_rows t n :=
+  let h := fresh "h" in let c := fresh "c" in let H := fresh "H" in
+  intros h c; change (nrows t) with n; unfold t; cbn [lookup];
+  repeat (destruct (String.eqb h _); [intros H; inversion H; reflexivity|]); discriminate.
+Ltac ex_null :=
+  eexists; split; [reflexivity|];
+  repeat (constructor; [eexists; split; [reflexivity|now right]|]); constructor.
+Tactic Notation "ex_unique" integer(n) :=
+  let i := fresh "i" in let j := fresh "j" in let H := fresh "H" in
+  intros i j Hi Hj _ _ H;
+  do n (destruct i as [|i]; [do n (destruct j as [|j]; [first [reflexivity | vm_compute in H; discriminate]|]);
+                              exfalso; vm_compute in Hj; lia|]);
+  exfalso; vm_compute in Hi; lia.
+Example C19_hypotheses_satisfiable :
+  wf_join false ex_A ex_B ex_K /\ full_ok ex_A ex_K /\
+  unique_live_keys false ex_A (map fst ex_K) /\ unique_live_keys false ex_B (map snd ex_K).
+Proof.
+  split; [|split; [|split]].
+  - constructor.
+    + constructor; [nodup3 | ex_null | ex_rows ex_A 5%nat | discriminate].
+    + constructor; [nodup3 | ex_null | ex_rows ex_B 6%nat | discriminate].
+    + constructor; [|constructor]. cbn. repeat split; auto.
+    + cbn. intros h [<-|[<-|[<-|[]]]] Hn Hk.
+      * discriminate.
+      * exfalso. apply Hk. now left.
+      * unfold null_header. intuition discriminate.
+  - intros h [<-|[]] Ha. cbn in Ha. unfold null_header in Ha. exfalso. intuition discriminate.
+  - ex_unique 5.
+  - ex_unique 6.
+Qed.
+
+Print Assumptions C19_join_impl_spec.
+Print Assumptions C19_inner_left_impl_spec.
+Print Assumptions C19_union_impl_spec.
+Print Assumptions C19_full_join_impl_spec.
+Print Assumptions C19_full_join_is_union_of_left.
 Print Assumptions C19_row_counts.
 Print Assumptions C19_column_order.
 Print Assumptions C19_inner_rows_are_left_rows.
